@@ -145,6 +145,9 @@ func GenNpm(r *rand.Rand, o NpmGenOpts) *NpmUniverse {
 		}
 	}
 	aliasNames := []string{"al1", "al2"}
+	// optional requirements that are also peer-/bundle-scoped (outside hypothesis OptPlain
+	// of the E2 theorem) only in one universe out of eight
+	optScoped := r.Intn(8) == 0
 	u := &NpmUniverse{}
 	for _, p := range names {
 		for _, v := range vers[p] {
@@ -164,9 +167,9 @@ func GenNpm(r *rand.Rand, o NpmGenOpts) *NpmUniverse {
 				case 5:
 					d.Type.Set(DepScope, "bundle")
 				case 6:
-					if r.Intn(3) == 0 {
+					if optScoped && r.Intn(3) == 0 {
 						d.Type.Mask |= DepOpt
-						d.Type.Set(DepScope, "peer")
+						d.Type.Set(DepScope, pickS(r, "peer", "peer", "bundle"))
 					} else {
 						d.Type.Set(DepScope, pickS(r, "bundled", "other"))
 					}
@@ -189,15 +192,20 @@ func GenNpm(r *rand.Rand, o NpmGenOpts) *NpmUniverse {
 				// the duplicates package.json allows: the same name again in another section
 				if !d.Type.Has(DepKnownAs) && d.Type.IsRegular() && r.Intn(12) == 0 {
 					e := NpmImport{Name: q, Req: npmReq(r, vers[q], tags[q])}
-					switch r.Intn(4) {
-					case 0:
+					switch r.Intn(9) {
+					case 0, 1:
 						e.Type.Mask |= DepOpt
-					case 1:
+					case 2, 3:
 						e.Type.Mask |= DepDev
-					case 2:
+					case 4, 5:
 						e.Type.Set(DepScope, "peer")
-					default:
+					case 6, 7:
 						e.Type.Set(DepScope, "bundle")
+					default: // an optional peer dependency (peerDependenciesMeta)
+						if optScoped {
+							e.Type.Mask |= DepOpt
+						}
+						e.Type.Set(DepScope, "peer")
 					}
 					nv.Imports = append(nv.Imports, e)
 				}
